@@ -20,7 +20,7 @@ Exit status: 0 = property held on everything explored (known findings may be pri
 import hashlib, json, os, random, sys, time, traceback
 
 from . import leanio
-from .leanio import InfraError, VERIF
+from .leanio import InfraError, MachineryError, VERIF
 
 EVIDENCE_DIR = os.path.join(VERIF, 'evidence')
 REPLAY_DIR = os.path.join(VERIF, 'replays')
@@ -114,7 +114,7 @@ class Check:
       # the driver may still exist from an earlier build; correspondence can go on if so
       if not all(os.path.exists(leanio.driver_path(h)) for h in mod.DRIVERS):
         # the model/driver itself no longer builds: cannot run the correspondence at all
-        raise InfraError('lake build failed and a driver binary is missing:\n' + out[-3000:])
+        raise MachineryError('lake build failed and a driver binary is missing:\n' + out[-3000:])
       return
     # source scan over the import closure of the property modules
     files = {}
@@ -301,7 +301,24 @@ def run_check(mod, tier, seed, replay=None):
       data = json.load(open(replay))
       return mod.replay(ck, data)
     ck.proof_step()
-    mod.run(ck)
+    try:
+      mod.run(ck)
+    except MachineryError:
+      raise
+    except Exception as e:
+      # The harness could not drive the implementation to the end (an exception out of pymtl3 on an input the unchanged
+      # tree handles, a generated design the implementation suddenly rejects, an interface the harness reads that is
+      # gone, ...).  That is a broken correspondence, not an infrastructure hiccup: the property is no longer shown to hold
+      # on this tree.  Concrete violations found before the stop are still reported as such.
+      tb = traceback.format_exc()
+      where = ''
+      t = e.__traceback__
+      while t is not None:
+        where = f'{os.path.basename(t.tb_frame.f_code.co_filename)}:{t.tb_lineno}'; t = t.tb_next
+      first = (str(e).strip().split('\n') or [''])[0][:300]
+      print(f'[{mod.PID}] correspondence run stopped by {type(e).__name__} at {where}: {first}', file=sys.stderr)
+      ck.disagreement(f'correspondence run could not be completed ({type(e).__name__} at {where})',
+                      {'exception': type(e).__name__, 'message': str(e)[:4000]}, 'n/a', tb[-4000:])
     return ck.finish()
   except InfraError as e:
     print(f'[{mod.PID}] infrastructure error: {e}', file=sys.stderr)
